@@ -164,7 +164,10 @@ class History:
         self.last_solve = {}
         self.solve_basis = {}
         self.build_filt = {}
-        self.filtered = set()       # frames whose vertices were smoothed by Frame.filter_edges("SG") (frame DATA changed)
+        # how many times each frame's vertices were smoothed by Frame.filter_edges("SG") (frame DATA changed; the
+        # Savitzky-Golay smoothing is not idempotent, so the count matters)
+        self.filtered = {}
+        self.ctor_filt = {}         # smoothing counts at the time the solver object under test was constructed
         self.pbasis = {}            # t -> (build step, solve step) in force when build_pressure_matrix(t) was called
         self.psolved = {}
         self.solve_order = []
@@ -188,12 +191,23 @@ class History:
         # the reference runs in the numpy error state forsys sets at import; whatever state the object under test
         # has left behind is restored afterwards (a process-wide leak is part of the history being tested)
         with np.errstate(all="raise"):
-            S2, f2 = build_forsys(self.p)
-            for k in sorted(filt_build):
-                call(f2.frames[k].filter_edges, "SG")
+            # the solver object links the frames (tracking) when it is constructed: smoothing that happened before
+            # the object under test was (re)constructed happens before the reference object is constructed too
+            import forsys as fs
+            from . import c12
+            S2, _, _ = c12.build_series(self.p)
+            fb, fs_, fc = dict(filt_build), dict(filt_solve), dict(self.ctor_filt)
+            for k in sorted(fc):
+                for _ in range(fc[k]):
+                    call(S2.frames[k].filter_edges, "SG")
+            f2 = call(fs.ForSys, S2.frames, cm=False)
+            for k in sorted(fb):
+                for _ in range(fb[k] - fc.get(k, 0)):
+                    call(f2.frames[k].filter_edges, "SG")
             call(f2.build_force_matrix, **build_kwargs(dict(b, t=t), explicit=True))
-            for k in sorted(set(filt_solve) - set(filt_build)):
-                call(f2.frames[k].filter_edges, "SG")
+            for k in sorted(fs_):
+                for _ in range(fs_[k] - fb.get(k, 0)):
+                    call(f2.frames[k].filter_edges, "SG")
             call(f2.solve_stress, when=t, **solve_kwargs(s, len(f2.frames[t].internal_big_edges), explicit=True))
             if want_pressure:
                 call(f2.build_pressure_matrix, when=t)
@@ -252,20 +266,21 @@ class History:
                 self.last_build[step["t"]] = {k: step[k] for k in ("op", "limit", "fit", "ignore_four")}
                 if step.get("omit"):
                     self.ctx.count("builds-with-defaults-left-out")
-                self.build_filt[step["t"]] = frozenset(self.filtered)
+                self.build_filt[step["t"]] = frozenset(self.filtered.items())
             elif op == "sysvel":
                 call(self.fsys.get_system_velocity_per_frame)
                 for t in range(self.n):
                     self.last_build[t] = dict(SYSVEL_BUILD)
-                    self.build_filt[t] = frozenset(self.filtered)
+                    self.build_filt[t] = frozenset(self.filtered.items())
             elif op == "filter":
                 call(self.fsys.frames[step["t"]].filter_edges, "SG")
-                self.filtered.add(step["t"])
+                self.filtered[step["t"]] = self.filtered.get(step["t"], 0) + 1
             elif op == "newsolver":
                 # a second solver object over the very same (already used) Frame objects, as when a notebook cell is
                 # run again: whatever the first object left on the frames must not change what the new one reports
                 import forsys as fs
                 self.fsys = call(fs.ForSys, self.S.frames, cm=False)
+                self.ctor_filt = dict(self.filtered)
                 self.last_build, self.last_solve, self.solve_basis = {}, {}, {}
                 self.build_filt, self.pbasis, self.psolved = {}, {}, {}
                 self.solve_order = []
@@ -281,7 +296,7 @@ class History:
                 call(self.fsys.solve_stress, when=t, **solve_kwargs(step, self.n_internal(t)))
                 self.last_solve[t] = {k: v for k, v in step.items() if k != "t"}
                 self.solve_basis[t] = (dict(self.last_build[t]), dict(self.last_solve[t]), self.build_filt[t],
-                                       frozenset(self.filtered))
+                                       frozenset(self.filtered.items()))
             elif op == "pbuild":
                 t = step["t"]
                 call(self.fsys.build_pressure_matrix, when=t)
@@ -298,7 +313,7 @@ class History:
                 if op == "solve":
                     self.last_solve[step["t"]] = {k: v for k, v in step.items() if k != "t"}
                     self.solve_basis[step["t"]] = (dict(self.last_build[step["t"]]), dict(self.last_solve[step["t"]]),
-                                                   self.build_filt[step["t"]], frozenset(self.filtered))
+                                                   self.build_filt[step["t"]], frozenset(self.filtered.items()))
                     self.fresh_result(step["t"], False)
                 elif op == "psolve":
                     self.fresh_result(step["t"], True)
